@@ -3,8 +3,10 @@ module verifharness
 go 1.13
 
 require (
+	github.com/google/uuid v1.1.2
 	go.dedis.ch/kyber/v3 v3.0.13
 	go.dedis.ch/onet/v3 v3.2.10
+	go.dedis.ch/protobuf v1.0.11
 )
 
 replace go.dedis.ch/onet/v3 => /repo
